@@ -19,7 +19,7 @@ func init() {
 	replays["C10"] = c10replay
 }
 
-var faultKinds = []string{"error", "notfound", "refresh412", "refresh416", "canceled", "midstream", "short", "empty", "garbage"}
+var faultKinds = []string{"error", "notfound", "refresh412", "refresh416", "canceled", "midstream", "short", "empty", "garbage", "cutoff"}
 
 // one fault schedule: a fault of kind k at the p-th bucket call of a script of requests, then recovery requests
 // for the same and for another archive once the fault is gone.
@@ -205,9 +205,9 @@ func c10malformed(seed uint64, idx int) (string, string, []string) {
 // Every schedule runs in a child process so that a panic in a server goroutine (which kills the process) or a
 // spinning event loop is an observable outcome of that schedule, not the end of the check.
 func c10(r *rng, tier string, o *out) {
-	nfault, nmal := 9*7*2, 150
+	nfault, nmal := 10*7*2, 150
 	if tier == "thorough" {
-		nfault, nmal = 9*7*60, 6000
+		nfault, nmal = 10*7*60, 6000
 	}
 	seed := r.next() % 100000
 	self, _ := os.Executable()
